@@ -42,14 +42,14 @@ def text_oracle(chk, res, kind):
 def run(tier, seed, replay):
     chk = common.Check("C05", tier, seed)
     st = common.check_proofs(chk, "C05", extra_dirs=("Fmt", "Gen"))
-    n = 1200 if tier == "quick" else 12000
+    n = 3000 if tier == "quick" else 20000
     res, dres = C.decision_tie(chk, n, n // 2)
     text_oracle(chk, res, "display")
     text_oracle(chk, dres, "debug")
 
     # run time: the real macro, rustc, caller's flags
     rng = chk.rng
-    ncase = 500 if tier == "quick" else 4000
+    ncase = 1200 if tier == "quick" else 6000
     cases, derive_of, enum_of = [], {}, {}
     for k in range(ncase):
         tr = rng.choice(F.DISPLAY_TRAITS[:-1] + ["Display", "Display", "Debug"])
